@@ -96,6 +96,9 @@ var scopeAtom = map[string]string{"*": "*", "r": regBase + "/app", "r/x": regBas
 
 func pick(list []string, salt uint32) string { return list[int(salt)%len(list)] }
 
+// names with letters / digits outside ASCII: not file-name-safe
+var unicodeStoreNames = []string{"ca:caf\u00e9-store", "signingAuthority:\u5e97", "tsa:store\uff11", "ca:\u0430cme"}
+
 func concStmtCore(a AbsStmt, salt uint32) (string, trustpolicy.SignatureVerification, []string, []string) {
 	sv := trustpolicy.SignatureVerification{VerificationLevel: levelAtom[a.Level], VerifyTimestamp: trustpolicy.TimestampOption(vtsAtom[a.Vts])}
 	if len(a.Override) > 0 {
@@ -110,10 +113,16 @@ func concStmtCore(a AbsStmt, salt uint32) (string, trustpolicy.SignatureVerifica
 			}
 			sv.Override[trustpolicy.ValidationType(ck)] = trustpolicy.ValidationAction(cv)
 		}
+	} else if salt%3 == 1 {
+		// no overrides written as an empty (not absent) object, as in JSON "override": {}
+		sv.Override = map[trustpolicy.ValidationType]trustpolicy.ValidationAction{}
 	}
 	var stores, ids []string
 	for _, s := range a.Stores {
 		c, ok := storeAtom[s]
+		if s == "ca:unicode" {
+			c, ok = pick(unicodeStoreNames, salt), true
+		}
 		if !ok {
 			panic("unknown store atom " + s)
 		}
@@ -464,6 +473,38 @@ func runPolicySelect() int {
 					obs.Intact = want != nil && reflect.DeepEqual(*want, *p2)
 				}
 				obs.DocOK = reflect.DeepEqual(pristine, doc)
+				// through the verifier: VerifyBlob with that policy name (the outcome's enforcement map identifies the statement)
+				v, verr := verifier.NewVerifierWithOptions(nullStore{}, verifier.VerifierOptions{BlobTrustPolicy: concBlob(in.Doc, salt)})
+				must(verr)
+				pname := nameAtom[in.BName]
+				switch in.BName {
+				case "":
+					pname = ""
+				case "blank":
+					pname = "  "
+				case "unlistedName":
+					pname = "alph"
+				case "caseName":
+					pname = "ALPHA"
+				case "paddedName":
+					pname = []string{" alpha", "alpha ", "alpha\n", "\talpha"}[int(salt)%4]
+				}
+				gen := func(alg digest.Algorithm) (ocispec.Descriptor, error) { return presentedAny(), nil }
+				outcome, err := v.VerifyBlob(context.Background(), gen, []byte("not a signature"), notation.BlobVerifierVerifyOptions{SignatureMediaType: mtJWS, TrustPolicyName: pname})
+				if outcome == nil {
+					obs.Via = "refused"
+					if err == nil {
+						obs.Via = "?nil-nil"
+					}
+				} else {
+					obs.Via = "?"
+					for i := range pristine.TrustPolicies {
+						l, _ := pristine.TrustPolicies[i].SignatureVerification.GetVerificationLevel()
+						if l != nil && reflect.DeepEqual(l.Enforcement, outcome.VerificationLevel.Enforcement) {
+							obs.Via = back(pristine.TrustPolicies[i].Name)
+						}
+					}
+				}
 			}
 		})
 		if panicked {
